@@ -185,3 +185,22 @@ def _(v):
     v.contract(Reaction.charge_neutrality_violation, "charge_neutrality_violation", None, lambda v, rxn, subs: cspec[idx(rxn)])
     v.prove("obeys_mass_balance", SP.iff(v.call(rsys.obeys_mass_balance), SP.conj([m == 0 for m in mspec])) if v.symbolic else True)
     v.prove("obeys_charge_neutrality", SP.iff(v.call(rsys.obeys_charge_neutrality), SP.conj([c == 0 for c in cspec])))
+
+
+@harness("C05", "fractional_compositions", functions=[RS + ":ReactionSystem.composition_balance_vectors", CH + ":Reaction.composition_violation", RS + ":ReactionSystem.check_balance"], kind="shape-bounded", samples=30)
+def _(v):
+    """non-stoichiometric formulas (FeO1.5, Ca2.832...) give real-valued composition entries: nothing may truncate them"""
+    from chempy.reactionsystem import ReactionSystem
+    from chempy.chemistry import Substance
+    from collections import OrderedDict
+    comp = {name: {k: v.real("f_%s_%d" % (name, k), lo=0, hi=4) for k in keys} for name, keys in LAYOUT.items()}
+    subst = OrderedDict((n, Substance(n, composition=dict(c))) for n, c in comp.items())
+    rxns, ds = reactions(v)
+    rsys = ReactionSystem(rxns, subst, checks=())
+    A, ck = v.call(rsys.composition_balance_vectors)
+    names = list(LAYOUT)
+    v.prove("entries_are_the_compositions_exactly", SP.conj([v.eq(A[i][j], comp[s].get(k, 0)) for i, k in enumerate(CKS) for j, s in enumerate(names)]))
+    viol = v.call(rxns[0].composition_violation, subst)
+    v.prove("violation_entries", SP.conj([v.eq(viol[j], violation(ds[0], comp, ck_)) for j, ck_ in enumerate(CKS)]))
+    r = v.call(rsys.check_balance)
+    v.prove("true_iff_balanced", SP.iff(r, balanced(ds, comp)) if v.symbolic else True)
